@@ -101,6 +101,12 @@ func TestC05(t *testing.T) {
 
 		// The batch.
 		n := c.Int("batch", 1, 40)
+		// One case in five is a long batch of small frames, so that copies can be
+		// replayed from around and beyond the far edge of the 64-frame window.
+		long := c.Weighted("batch.long", 4, 1) == 1
+		if long {
+			n = c.Int("batch.long.n", 66, 150)
+		}
 		sent := map[string]int{} // frame bytes -> index
 		var markers [][]byte
 		mkFrame := func(i int, size int, mt frame.MessageType) frame.Frame {
@@ -125,6 +131,9 @@ func TestC05(t *testing.T) {
 			size := core.OneOf(c, "size", 1, 20, 40, 100, 400, 520, 1400, 1500, 5000, 9000, 10000)
 			if c.Bool("size.rand") {
 				size = c.Int("size.v", 1, 2000)
+			}
+			if long {
+				size = min(size, 120)
 			}
 			mt := core.OneOf(c, "type", frame.NetworkTraffic, frame.NetworkTraffic, frame.SessionData, frame.RouterPing, frame.RouterCtrl, frame.MessageType(77))
 			f := mkFrame(i, size, mt)
@@ -154,6 +163,17 @@ func TestC05(t *testing.T) {
 		nFaults := c.Int("faults", 0, 6)
 		var faultKinds []string
 		cut := false
+		if long {
+			// A copy of an early frame, replayed 60..70 frames later.
+			at := c.Int("far.at", 0, n-66)
+			d := c.Uniform("far.d", 60, 70)
+			x := stream[at]
+			x.intact = false
+			x.what = fmt.Sprintf("dup-far+%d(%s)", d, x.what)
+			to := min(at+1+d, len(stream))
+			stream = append(stream[:to], append([]c05Chunk{x}, stream[to:]...)...)
+			faultKinds = append(faultKinds, "dup-far")
+		}
 		for k := 0; k < nFaults && len(stream) > 0; k++ {
 			pos := c.Pick("fault.at", len(stream))
 			ch := stream[pos]
@@ -396,7 +416,9 @@ func TestC05(t *testing.T) {
 			}
 		}
 		bucket := "1-5"
-		if n > 20 {
+		if n > 40 {
+			bucket = "66-150"
+		} else if n > 20 {
 			bucket = "21-40"
 		} else if n > 5 {
 			bucket = "6-20"
